@@ -1,10 +1,13 @@
 import Tw.Model.GamenetTyping
 import Tw.Proofs.Gamenet
 import Tw.Proofs.GamenetCanon
+import Tw.Proofs.GamenetCap
+import Tw.Proofs.GamenetObj
 import Tw.Gen.Spec_tw05
 import Tw.Gen.Spec_tw06
 import Tw.Gen.Spec_tw07
 import Tw.Gen.Spec_ddnet
+import Tw.Gen.GamenetMsg
 
 /-!
 # C14 — generated message and object codecs match the protocol descriptions
@@ -55,6 +58,37 @@ theorem tie_identifiers :
     idsOk Tw.Gen.Spec_tw05.spec = true ∧ idsOk Tw.Gen.Spec_tw06.spec = true ∧
     idsOk Tw.Gen.Spec_tw07.spec = true ∧ idsOk Tw.Gen.Spec_ddnet.spec = true := by
   decide +kernel
+
+/-- Tie to the generated Rust: the arms of `System::decode_msg`, `Game::decode_msg`,
+`SnapObj::decode_obj` and `Connless::decode_connless` of all four crates (extracted from the
+sources in order, with the values of the `pub const` identifiers they match on: ordinals, UUIDs,
+8-byte connless headers) are exactly the descriptions' messages / objects with their identifiers,
+each decoded by the struct of its name. -/
+theorem tie_dispatch_arms :
+    (dispatchOk Tw.Gen.Spec_tw05.rustSystem Tw.Gen.Spec_tw05.spec.system ∧
+     dispatchOk Tw.Gen.Spec_tw05.rustGame Tw.Gen.Spec_tw05.spec.game ∧
+     dispatchOk Tw.Gen.Spec_tw05.rustObjects Tw.Gen.Spec_tw05.spec.objects ∧
+     connlessDispatchOk Tw.Gen.Spec_tw05.rustConnless Tw.Gen.Spec_tw05.spec.connless) ∧
+    (dispatchOk Tw.Gen.Spec_tw06.rustSystem Tw.Gen.Spec_tw06.spec.system ∧
+     dispatchOk Tw.Gen.Spec_tw06.rustGame Tw.Gen.Spec_tw06.spec.game ∧
+     dispatchOk Tw.Gen.Spec_tw06.rustObjects Tw.Gen.Spec_tw06.spec.objects ∧
+     connlessDispatchOk Tw.Gen.Spec_tw06.rustConnless Tw.Gen.Spec_tw06.spec.connless) ∧
+    (dispatchOk Tw.Gen.Spec_tw07.rustSystem Tw.Gen.Spec_tw07.spec.system ∧
+     dispatchOk Tw.Gen.Spec_tw07.rustGame Tw.Gen.Spec_tw07.spec.game ∧
+     dispatchOk Tw.Gen.Spec_tw07.rustObjects Tw.Gen.Spec_tw07.spec.objects ∧
+     connlessDispatchOk Tw.Gen.Spec_tw07.rustConnless Tw.Gen.Spec_tw07.spec.connless) ∧
+    (dispatchOk Tw.Gen.Spec_ddnet.rustSystem Tw.Gen.Spec_ddnet.spec.system ∧
+     dispatchOk Tw.Gen.Spec_ddnet.rustGame Tw.Gen.Spec_ddnet.spec.game ∧
+     dispatchOk Tw.Gen.Spec_ddnet.rustObjects Tw.Gen.Spec_ddnet.spec.objects ∧
+     connlessDispatchOk Tw.Gen.Spec_ddnet.rustConnless Tw.Gen.Spec_ddnet.spec.connless) := by
+  decide +kernel
+
+/-- Tie to `gamenet/common/src/msg.rs`: the integer literals of `SystemOrGame::decode_id`
+(`id & 1 != 0`, `id >> 1`, `msg != 0`) and `encode_id` (`i != 0`, `=> 0`, `1 << 31`, `== 0`,
+`iid << 1`) are the ones `decodeId` / `encodeId` were written against. -/
+theorem tie_message_id_literals :
+    Tw.Gen.GamenetMsg.lits_decode_id = [1, 0, 1, 0] ∧
+    Tw.Gen.GamenetMsg.lits_encode_id = [0, 0, 1, 31, 0, 1] := by decide
 
 /-! ### Messages (system, game, connless): one statement for every description -/
 
@@ -119,6 +153,25 @@ theorem tie_optionals_last :
     optsLastProto Tw.Gen.Spec_tw05.spec = true ∧ optsLastProto Tw.Gen.Spec_tw06.spec = true ∧
     optsLastProto Tw.Gen.Spec_tw07.spec = true ∧ optsLastProto Tw.Gen.Spec_ddnet.spec = true := by
   decide +kernel
+
+/-- *Small buffers.*  `encStructCap cap` executes the generated `encode` step by step (asserts,
+then one write per member) against a buffer of `cap` bytes.  For every value that `encode` can
+write at all: it is written completely, byte for byte the same, into every buffer that is large
+enough, and refused with `CapacityError` — never a panic — by every buffer that is too small. -/
+theorem encode_respects_capacity (cap : Nat) (ms : ML) (v : VL) (bs : List UInt8)
+    (h : encStruct ms v = .ok bs) :
+    encStructCap cap ms v = if bs.length ≤ cap then .ok bs else .capacity :=
+  encStructCap_of_ok cap ms v bs h
+
+/-- … the same for `System::encode` / `Game::encode` including the id. -/
+theorem message_encode_respects_capacity (cap : Nat) (sys : Bool) (s : Spec) (v : VL) (bs : List UInt8)
+    (h : encodeMsg sys s v = .ok bs) :
+    encodeMsgCap cap sys s v = if bs.length ≤ cap then .ok bs else .capacity :=
+  encodeMsgCap_of_ok cap sys s v bs h
+
+example : encodeMsgCap 4 true Tw.Gen.Spec_tw06.sys_info (.cons (.bytes [48, 46, 54]) (.cons .none .nil)) = .capacity ∧
+    encodeMsgCap 5 true Tw.Gen.Spec_tw06.sys_info (.cons (.bytes [48, 46, 54]) (.cons .none .nil)) = .ok [3, 48, 46, 54, 0] := by
+  decide
 
 /-- The same with message ids: `System::encode` / `Game::encode`, then `msg::decode` dispatching on
 the id (`ordinal << 1 | sys`, or 0 and a UUID). -/
@@ -267,6 +320,15 @@ theorem object_words_reexposed_partial (ms : ML) (inp : List Int) (hwf : wfOs ms
     (hnb : noBool ms = true) (hne : ms ≠ .nil) (hi : ∀ x ∈ inp, inI32 x)
     (hd : ∃ v, decodeObjMembers ms inp = .ok v false) : encodedWords ms inp = some (inp.map some) :=
   encodedWords_noBool ms inp hwf hnb hne hi hd
+
+/-- The other direction, value → words → value: every value an object description (without
+boolean members) admits is exposed by `encode` as words that `decode` turns back into exactly that
+value, with no excess data. -/
+theorem object_encode_decode_roundtrip_partial (ms : ML) (v : VL) (hwf : wfOs ms = true)
+    (hnb : noBool ms = true) (hne : ms ≠ .nil) (hwt : wtMs ms v = true) :
+    ∃ ints, encodeObj ms v = .ok (ints.map some) ∧ (∀ x ∈ ints, inI32 x) ∧
+      decodeObjMembers ms ints = .ok v false :=
+  encodeObj_decodeObj ms v hwf hnb hne hwt
 
 /-- Which shipped snapshot objects the hypothesis excludes: exactly the four of D25. -/
 theorem tie_objects_with_bool :
